@@ -228,7 +228,7 @@ func (e *env[S, G]) Lagrange(t *rapid.T) {
 }
 
 func TestLagrange(t *testing.T) {
-	vlib.Check(t, 1000, func(t *rapid.T) { drawSuite(t).Lagrange(t) })
+	vlib.Check(t, 2500, func(t *rapid.T) { drawSuite(t).Lagrange(t) })
 }
 
 // ---- Vandermonde --------------------------------------------------------------------------
@@ -309,7 +309,7 @@ func (e *env[S, G]) Vandermonde(t *rapid.T) {
 }
 
 func TestVandermonde(t *testing.T) {
-	vlib.Check(t, 700, func(t *rapid.T) { drawSuite(t).Vandermonde(t) })
+	vlib.Check(t, 2000, func(t *rapid.T) { drawSuite(t).Vandermonde(t) })
 }
 
 // ---- Birkhoff -----------------------------------------------------------------------------
@@ -593,7 +593,7 @@ func (e *env[S, G]) Birkhoff(t *rapid.T) {
 }
 
 func TestBirkhoff(t *testing.T) {
-	vlib.Check(t, 1200, func(t *rapid.T) { drawSuite(t).Birkhoff(t) })
+	vlib.Check(t, 3000, func(t *rapid.T) { drawSuite(t).Birkhoff(t) })
 }
 
 // KnownBirkhoffSingleNodeInExponent observes the catalogued finding: with one node (x, order 0)
